@@ -106,6 +106,17 @@ class Ctx:
     def coin(self) -> bool:
         return self.rnd.random() < 0.5
 
+    def memo(self, f: Callable) -> Callable:
+        """deterministic version of a callback that builds observables: same arguments, same (cold) observable"""
+        cache: Dict[str, Any] = {}
+
+        def g(*a):
+            k = repr([x if isinstance(x, (int, str, tuple, bool, type(None))) else type(x).__name__ for x in a])
+            if k not in cache:
+                cache[k] = f(*a)
+            return cache[k]
+        return g
+
 
 def _i(x):
     try:
@@ -184,7 +195,7 @@ def _install():
     _reg("sequence_equal", "num", lambda c: A(c.source("num", "other")) if c.coin() else A([1, 2]))
     # ---- sequential
     _reg("concat", "any", lambda c: A(c.source("num", "other")))
-    _reg("catch", "any", lambda c: A(c.source("num", "other")) if c.coin() else A(c.cb(lambda e, src: c.inner())), "recover")
+    _reg("catch", "any", lambda c: A(c.source("num", "other")) if c.coin() else A(c.cb(c.memo(lambda e, src: c.inner()))), "recover")
     _reg("on_error_resume_next", "any", lambda c: A(c.source("num", "other")), "recover")
     _reg("repeat", "any", lambda c: A(c.rnd.randint(0, 2)), "recover")
     _reg("retry", "any", lambda c: A(c.rnd.randint(1, 2)), "recover")
@@ -193,15 +204,15 @@ def _install():
     # ---- merging / switching (higher order)
     _reg("merge", "any", lambda c: A(c.source("num", "other")))
     _reg("merge_all", "obs", lambda c: A())
-    _reg("flat_map", "any", lambda c: A(c.cb(lambda v: c.inner())))
-    _reg("flat_map_indexed", "any", lambda c: A(c.cb(lambda v, i: c.inner())))
-    _reg("concat_map", "any", lambda c: A(c.cb(lambda v: c.inner())))
-    _reg("flat_map_latest", "any", lambda c: A(c.cb(lambda v: c.inner())))
-    _reg("switch_map", "any", lambda c: A(c.cb(lambda v: c.inner())))
-    _reg("switch_map_indexed", "any", lambda c: A(c.cb(lambda v, i: c.inner())))
+    _reg("flat_map", "any", lambda c: A(c.cb(c.memo(lambda v: c.inner()))))
+    _reg("flat_map_indexed", "any", lambda c: A(c.cb(c.memo(lambda v, i: c.inner()))))
+    _reg("concat_map", "any", lambda c: A(c.cb(c.memo(lambda v: c.inner()))))
+    _reg("flat_map_latest", "any", lambda c: A(c.cb(c.memo(lambda v: c.inner()))))
+    _reg("switch_map", "any", lambda c: A(c.cb(c.memo(lambda v: c.inner()))))
+    _reg("switch_map_indexed", "any", lambda c: A(c.cb(c.memo(lambda v, i: c.inner()))))
     _reg("switch_latest", "obs", lambda c: A())
     _reg("exclusive", "obs", lambda c: A())
-    _reg("expand", "num", lambda c: A(c.cb(lambda v: c.inner() if v < 2 else __import__("reactivex").empty())))
+    _reg("expand", "num", lambda c: A(c.cb(c.memo(lambda v: c.inner() if v < 2 else __import__("reactivex").empty()))))
     # ---- combinators
     _reg("zip", "any", lambda c: A(c.source("num", "other")))
     _reg("zip_with_iterable", "any", lambda c: A([10, 20]))
@@ -214,13 +225,13 @@ def _install():
     # ---- time
     _reg("delay", "any", lambda c: A(c.rnd.choice([0, 5, 12])), "time")
     _reg("delay_subscription", "any", lambda c: A(c.rnd.choice([0, 5, 12])), "time")
-    _reg("delay_with_mapper", "any", lambda c: A(None, c.cb(lambda v: c.trigger())), "time")
+    _reg("delay_with_mapper", "any", lambda c: A(None, c.cb(c.memo(lambda v: c.trigger()))), "time")
     _reg("timestamp", "any", lambda c: A(), "time")
     _reg("time_interval", "any", lambda c: A(), "time")
     _reg("debounce", "any", lambda c: A(c.rnd.choice([5, 12])), "time")
     _reg("throttle_with_timeout", "any", lambda c: A(c.rnd.choice([5, 12])), "time")
     _reg("throttle_first", "any", lambda c: A(c.rnd.choice([5, 12])), "time")
-    _reg("throttle_with_mapper", "any", lambda c: A(c.cb(lambda v: c.trigger())), "time")
+    _reg("throttle_with_mapper", "any", lambda c: A(c.cb(c.memo(lambda v: c.trigger()))), "time")
     _reg("sample", "any", lambda c: A(c.rnd.choice([10, 15])) if c.coin() else A(c.trigger()), "time")
     _reg("take_with_time", "any", lambda c: A(c.rnd.choice([5, 20])), "time")
     _reg("skip_with_time", "any", lambda c: A(c.rnd.choice([5, 20])), "time")
@@ -229,7 +240,7 @@ def _install():
     _reg("take_last_with_time", "any", lambda c: A(c.rnd.choice([5, 20])), "time")
     _reg("skip_last_with_time", "any", lambda c: A(c.rnd.choice([5, 20])), "time")
     _reg("timeout", "any", lambda c: A(c.rnd.choice([7, 20]), c.source("num", "other") if c.coin() else None), "time")
-    _reg("timeout_with_mapper", "any", lambda c: A(c.trigger(), c.cb(lambda v: c.trigger())), "time")
+    _reg("timeout_with_mapper", "any", lambda c: A(c.trigger(), c.cb(c.memo(lambda v: c.trigger()))), "time")
     # ---- windows / buffers / groups
     _reg("window_with_count", "any", lambda c: A(c.rnd.randint(1, 3), c.rnd.randint(1, 3)), "obs_out")
     _reg("buffer_with_count", "any", lambda c: A(c.rnd.randint(1, 3), c.rnd.randint(1, 3)))
@@ -241,15 +252,16 @@ def _install():
     _reg("buffer", "any", lambda c: A(c.trigger()))
     _reg("window_when", "any", lambda c: A(c.cb(lambda: c.trigger())), "obs_out")
     _reg("buffer_when", "any", lambda c: A(c.cb(lambda: c.trigger())))
-    _reg("window_toggle", "any", lambda c: A(c.trigger(), c.cb(lambda v: c.trigger())), "obs_out")
-    _reg("buffer_toggle", "any", lambda c: A(c.trigger(), c.cb(lambda v: c.trigger())))
+    _reg("window_toggle", "any", lambda c: A(c.trigger(), c.cb(c.memo(lambda v: c.trigger()))), "obs_out")
+    _reg("buffer_toggle", "any", lambda c: A(c.trigger(), c.cb(c.memo(lambda v: c.trigger()))))
     _reg("group_by", "any", lambda c: A(c.cb(lambda v: _i(v)), c.cb(lambda v: (v,)) if c.coin() else None), "obs_out")
-    _reg("group_by_until", "any", lambda c: A(c.cb(lambda v: _i(v)), None, c.cb(lambda g: c.trigger())), "obs_out")
+    _reg("group_by_until", "any", lambda c: A(c.cb(lambda v: _i(v)), None, c.cb(c.memo(lambda g: c.trigger()))), "obs_out")
     _reg("partition", "any", lambda c: A(pred(c)), "multi")
     _reg("partition_indexed", "any", lambda c: A(predi(c)), "multi")
-    _reg("join", "any", lambda c: A(c.source("num", "other"), c.cb(lambda v: c.trigger()), c.cb(lambda v: c.trigger())))
-    _reg("group_join", "any", lambda c: A(c.source("num", "other"), c.cb(lambda v: c.trigger()), c.cb(lambda v: c.trigger())), "obs_out")
+    _reg("join", "any", lambda c: A(c.source("num", "other"), c.cb(c.memo(lambda v: c.trigger())), c.cb(c.memo(lambda v: c.trigger()))))
+    _reg("group_join", "any", lambda c: A(c.source("num", "other"), c.cb(c.memo(lambda v: c.trigger())), c.cb(c.memo(lambda v: c.trigger()))), "obs_out")
     # ---- side effects / resources
+    _reg("do", "any", lambda c: A(__import__("reactivex").Observer(c.cb(lambda v: None), c.cb(lambda e: None, obs=True), c.cb(lambda: None, obs=True))))
     _reg("do_action", "any", lambda c: A(c.cb(lambda v: None), c.cb(lambda e: None, obs=True), c.cb(lambda: None, obs=True)))
     _reg("finally_action", "any", lambda c: A(c.cb(lambda: None, obs=True)))
     # ---- multicasting (connectable results are connected through ref_count in pipelines)
